@@ -475,6 +475,85 @@ async fn fd_case(ty: Ty, tr: crate::e4::Tr, reset: bool, cycles: usize) -> Optio
     None
 }
 
+/// The same from the connecting side: the socket connects out to a raw listener, again and again; every other cycle the
+/// listener's side closes in mid-handshake instead (connect() must fail), the others handshake, exchange traffic and
+/// close. Descriptors must return to the baseline.
+async fn fd_case_outbound(ty: Ty, tr: crate::e4::Tr, cycles: usize) -> Option<(String, String)> {
+    use crate::e4::{self, RawStream};
+    use std::time::Duration;
+    let what = format!("{} over {}: {} cycles of connect() out to a raw listener (every other one closing in mid-handshake), traffic, orderly close by the peer", ty.name(), tr.name(), cycles);
+    let mut sock = AnySocket::new_unmonitored(ty, None);
+    let _monitor = sock.monitor();
+    sock.subscribe_all().await;
+    let (tcp_l, unix_l, ep_text) = match tr {
+        e4::Tr::Ipc => {
+            let p = e4::ipc_path();
+            let l = tokio::net::UnixListener::bind(&p).expect("raw unix listener");
+            (None, Some(l), format!("ipc://{}", p.display()))
+        }
+        _ => {
+            let l = tokio::net::TcpListener::bind(if tr == e4::Tr::Tcp4 { "127.0.0.1:0" } else { "[::1]:0" }).await.expect("raw tcp listener");
+            let port = l.local_addr().unwrap().port();
+            (Some(l), None, if tr == e4::Tr::Tcp4 { format!("tcp://127.0.0.1:{}", port) } else { format!("tcp://[::1]:{}", port) })
+        }
+    };
+    let mut baseline = 0usize;
+    for cycle in 0..cycles + 4 {
+        if cycle == 4 {
+            tokio::time::sleep(Duration::from_millis(30)).await;
+            baseline = count_fds();
+        }
+        let bad = cycle % 2 == 1;
+        let accept = async {
+            let mut s = if let Some(l) = &tcp_l { RawStream::Tcp(l.accept().await.expect("accept").0) } else { RawStream::Unix(unix_l.as_ref().unwrap().accept().await.expect("accept").0) };
+            if bad {
+                let _ = s.write_all(&rc::default_greeting()[..20]).await;
+                return None;
+            }
+            match e4::raw_handshake(&mut s, ty.peer_type(), None).await {
+                Ok(_) => Some(s),
+                Err(_) => None,
+            }
+        };
+        let (conn, peer) = tokio::join!(tokio::time::timeout(e4::HORIZON, sock.connect(&ep_text)), accept);
+        match (bad, &conn) {
+            (true, Ok(Ok(()))) => return Some((format!("outbound/connect-succeeded-without-handshake/{}", ty.name()), format!("{}: connect() returned Ok although the listener's side closed after 20 bytes of its greeting", what))),
+            (_, Err(_)) => return Some((format!("outbound/connect-hangs/{}", ty.name()), format!("{}: connect() did not return within {} s (cycle {}, peer {})", what, e4::HORIZON.as_secs(), cycle, if bad { "closing in mid-handshake" } else { "well-behaved" }))),
+            (false, Ok(Err(e))) => return Some(("machinery/connect-out".into(), format!("{}: connect() to a well-behaved listener failed: {}", what, e))),
+            _ => {}
+        }
+        if let Some(mut c) = peer {
+            if ty.can_recv() && ty != Ty::Req {
+                let _ = c.write_all(&rc::encode_message(&e4::peer_message(ty, "x"))).await;
+                let _ = tokio::time::timeout(Duration::from_millis(500), sock.recv()).await;
+            } else if matches!(ty, Ty::Pub) {
+                let _ = c.write_all(&rc::encode_message(&[vec![1u8]])).await;
+                tokio::time::sleep(Duration::from_millis(2)).await;
+            }
+            drop(c);
+        }
+        tokio::time::sleep(Duration::from_millis(2)).await;
+        if ty.can_recv() && ty != Ty::Req {
+            let _ = tokio::time::timeout(Duration::from_millis(20), sock.recv()).await;
+        }
+        if matches!(ty, Ty::Push | Ty::Dealer | Ty::Req | Ty::Pub | Ty::XPub) {
+            for _ in 0..2 {
+                let _ = tokio::time::timeout(Duration::from_millis(200), sock.send(crate::e1::msg(&[b"probe".to_vec()]))).await;
+                if ty == Ty::Req {
+                    let _ = tokio::time::timeout(Duration::from_millis(20), sock.recv()).await;
+                }
+            }
+        }
+    }
+    let (ok, _) = e4::await_cond(e4::HORIZON, || count_fds() <= baseline).await;
+    let now = count_fds();
+    let _ = sock.close().await;
+    if !ok {
+        return Some((format!("fd-leak/{}/outbound", ty.name()), format!("{}: {} descriptors open before the cycles, {} afterwards ({} s later): the socket accumulates dead connections", what, baseline, now, e4::HORIZON.as_secs())));
+    }
+    None
+}
+
 pub fn child_fd(tier: Tier) -> i32 {
     let cycles = tier.pick(12usize, 50usize);
     let mut n = 0;
@@ -497,6 +576,23 @@ pub fn child_fd(tier: Tier) -> i32 {
                     let _ = std::io::stdout().flush();
                     std::process::exit(0);
                 }
+            }
+        }
+    }
+    // the connecting side
+    for ty in ALL_TYPES {
+        for tr in [crate::e4::Tr::Tcp4, crate::e4::Tr::Tcp6, crate::e4::Tr::Ipc] {
+            n += 1;
+            let r = crate::e4::block_on_deadline(2, crate::e4::CASE_DEADLINE, move || async move { fd_case_outbound(ty, tr, cycles).await });
+            let hung = r.is_none();
+            let r = r.unwrap_or_else(|| Some((format!("runtime-hung/{}", ty.name()), format!("{} over {}: outbound connect cycles did not come back within {} s: a runtime thread is blocked for ever", ty.name(), tr.name(), crate::e4::CASE_DEADLINE.as_secs()))));
+            println!("{}", json!({"type": ty.name(), "transport": tr.name(), "reset": false, "outbound": true, "cycles": cycles, "finding": r}));
+            if hung {
+                crate::e4::cleanup_ipc_dir();
+                println!("{}", json!({"cases": n}));
+                use std::io::Write;
+                let _ = std::io::stdout().flush();
+                std::process::exit(0);
             }
         }
     }
@@ -550,7 +646,7 @@ pub fn run(tier: Tier, replay: Option<String>) -> i32 {
                         if c.starts_with("machinery/") {
                             ck.machinery_error(m.to_string());
                         } else {
-                            ck.finding(c.to_string(), m.to_string(), json!({"engine":"E4","type":v["type"],"transport":v["transport"],"reset":v["reset"],"cycles":v["cycles"]}));
+                            ck.finding(c.to_string(), m.to_string(), json!({"engine":"E4","type":v["type"],"transport":v["transport"],"reset":v["reset"],"outbound":v["outbound"],"cycles":v["cycles"]}));
                         }
                     }
                 }
@@ -565,7 +661,7 @@ pub fn run(tier: Tier, replay: Option<String>) -> i32 {
     ck.cov("transitions", ex);
     ck.cov("traces_validated_against_impl", ex);
     ck.cov("exhaustive", ck.coverage.get("e3_scenarios_capped").and_then(|v| v.as_u64()) == Some(0));
-    ck.cov("explanation", "for each of the 9 socket types: a victim peer whose byte stream (greeting + READY + message + multipart message) is cut at EVERY byte offset by {close: end-of-stream and failing writes; reset: read error and failing writes; silence with failing writes}, next to a live peer attached before or after it that keeps sending; every schedule within the deviation bound. Oracle: a cut inside the handshake makes attach fail and both halves of the connection are dropped; later cuts: every message of the live peer is delivered, recv reports at most one error for the event and then parks or delivers (step horizon = spin), no send after the end was observed grows the victim's wire (write-only sockets observe it through one failing send), the live peer still receives what is sent to it, and at final quiescence BOTH halves of the victim's connection have been dropped (peer-table entry, buffers, transport handle released). states = scenarios (type x offset x fault x attach order); transitions = executions. Additionally (E4, real runtime, OS schedules not enumerated): for each type x {TCP v4, TCP v6, IPC} x {orderly close, abortive close (RST, TCP only)} a series of connect / handshake / traffic / disconnect cycles, after which the process's open-descriptor count must return to its value before the cycles.");
+    ck.cov("explanation", "for each of the 9 socket types: a victim peer whose byte stream (greeting + READY + message + multipart message) is cut at EVERY byte offset by {close: end-of-stream and failing writes; reset: read error and failing writes; silence with failing writes}, next to a live peer attached before or after it that keeps sending; every schedule within the deviation bound. Oracle: a cut inside the handshake makes attach fail and both halves of the connection are dropped; later cuts: every message of the live peer is delivered, recv reports at most one error for the event and then parks or delivers (step horizon = spin), no send after the end was observed grows the victim's wire (write-only sockets observe it through one failing send), the live peer still receives what is sent to it, and at final quiescence BOTH halves of the victim's connection have been dropped (peer-table entry, buffers, transport handle released). states = scenarios (type x offset x fault x attach order); transitions = executions. Additionally (E4, real runtime, OS schedules not enumerated): for each type x {TCP v4, TCP v6, IPC} x {orderly close, abortive close (RST, TCP only)} a series of connect / handshake / traffic / disconnect cycles, after which the process's open-descriptor count must return to its value before the cycles; and the same from the connecting side (the socket connect()s out to a raw listener again and again, every other time to one that closes in mid-handshake: connect() must fail then, never hang).");
     ck.assume("'connection released' = the harness pipe halves handed to the library have been dropped");
     ck.conclude()
 }
